@@ -138,6 +138,14 @@ fn after_read(obj: &dicom_object::DefaultDicomObject, env: &EnvRef) {
     let mut sink = SimSink::new(env, SinkCfg::default());
     let _ = dicom_dump::DumpOptions::new().dump_object_to(&mut sink, obj);
     let _ = dicom_dump::dump_file_to(&mut sink, obj);
+    // width-limited dumping (what the stdout variants and the CLI do), element by element
+    for (i, e) in obj.iter().enumerate() {
+        let width = [100u32, 120, 40, 79][i % 4];
+        let _ = dicom_dump::dump_element(&mut sink, e, width, (i % 3) as u32, i % 2 == 0, false);
+        if i > 200 {
+            break;
+        }
+    }
     env.probe("dumped");
     // pixel data decoding of any object content
     if obj.decode_pixel_data().is_ok() {
